@@ -40,9 +40,8 @@ var corpus = []corpusProg{
 }
 
 const srcRichWa = `// rich.wa: structs, interfaces, closures, maps, generics, embedding, globals
-import "strconv"
-import "strings"
 import "errors"
+import "sort"
 
 const (
 	KindRect = iota
@@ -87,9 +86,9 @@ type Tri: struct {
 }
 
 func Rect.Area() => f64 { return this.w * this.h }
-func Rect.Name() => string { return "rect#" + strconv.Itoa(this.id) }
+func Rect.Name() => string { return "rect#" + itoa(this.id) }
 func Circle.Area() => f64 { return 3.14159 * this.r * this.r }
-func Circle.Name() => string { return "circle#" + strconv.Itoa(this.id) }
+func Circle.Name() => string { return "circle#" + itoa(this.id) }
 func Tri.Area() => f64 { return (this.a + this.b + this.c) / 2 }
 func Tri.Name() => string { return "tri" }
 
@@ -183,7 +182,7 @@ func total(shapes: []Shape) => f64 {
 func describe(v: interface{}) => string {
 	switch x := v.(type) {
 	case int:
-		return "int:" + strconv.Itoa(x)
+		return "int:" + itoa(x)
 	case string:
 		return "string:" + x
 	case Shape:
@@ -205,8 +204,8 @@ func divide(a, b: int) => (int, error) {
 
 func wordFreq(text: string) => map[string]int {
 	m := make(map[string]int)
-	for _, w := range strings.Fields(text) {
-		m[strings.ToLower(w)]++
+	for _, w := range fields(text) {
+		m[lower(w)]++
 	}
 	return m
 }
@@ -217,12 +216,67 @@ func sortedKeys(m: map[string]int) => []string {
 		_ = v
 		keys = append(keys, k)
 	}
-	for i := 1; i < len(keys); i++ {
-		for j := i; j > 0 && keys[j-1] > keys[j]; j-- {
-			keys[j-1], keys[j] = keys[j], keys[j-1]
+	sort.Strings(keys)
+	return keys
+}
+
+func itoa(n: int) => string {
+	if n == 0 {
+		return "0"
+	}
+	neg := n < 0
+	if neg {
+		n = -n
+	}
+	buf: []byte
+	for n > 0 {
+		buf = append(buf, byte('0'+n%10))
+		n /= 10
+	}
+	if neg {
+		buf = append(buf, '-')
+	}
+	for i, j := 0, len(buf)-1; i < j; i, j = i+1, j-1 {
+		buf[i], buf[j] = buf[j], buf[i]
+	}
+	return string(buf)
+}
+
+func fields(s: string) => []string {
+	out: []string
+	start := -1
+	for i := 0; i < len(s); i++ {
+		if s[i] == ' ' {
+			if start >= 0 {
+				out = append(out, s[start:i])
+				start = -1
+			}
+		} else if start < 0 {
+			start = i
 		}
 	}
-	return keys
+	if start >= 0 {
+		out = append(out, s[start:])
+	}
+	return out
+}
+
+func lower(s: string) => string {
+	b := []byte(s)
+	for i, c := range b {
+		if c >= 'A' && c <= 'Z' {
+			b[i] = c + 32
+		}
+	}
+	return string(b)
+}
+
+func repeat(s: string, n: int) => string {
+	out := ""
+	for i := 0; i < n; i++ {
+		out += s
+	}
+	return out
 }
 
 func init {
@@ -286,14 +340,13 @@ func main {
 	defer println("deferred")
 	ch := 'x'
 	bs := []byte("héllo")
-	println(ch, len(bs), string(bs[:1]), strings.Repeat("ab", 3))
+	println(ch, len(bs), string(bs[:1]), repeat("ab", 3))
 }
 `
 
 const srcRichWz = `注: rich.wz 中文语法程序
 
 引入 "书"
-引入 "字串包" => 串
 
 常量 甲 = 1
 常量 乙: 整型 = 2
@@ -378,7 +431,7 @@ const srcRichWz = `注: rich.wz 中文语法程序
 	设定·q: 会加 = p
 	设定·v: 整型
 	v, _ = 交换(1, 2)
-	输出(甲, 乙, 丙, 丁, 计数, 名字, 子, 丑, q·加(2), v, 串·删首尾空白(" a "))
+	输出(甲, 乙, 丙, 丁, 计数, 名字, 子, 丑, q·加(2), v)
 	书·说("好")
 
 	l := &线{起: 点{横: 1}, 止: 点{横: 5}}
@@ -584,7 +637,6 @@ const srcMultiZh = `注: 中文子包
 `
 
 const srcTestLib = `// unit-test mode program
-import "strings"
 import "utest/inner"
 
 type Queue: struct {
@@ -593,7 +645,16 @@ type Queue: struct {
 
 func Queue.Push(s: string) { this.items = append(this.items, s) }
 func Queue.Len() => int { return len(this.items) }
-func Queue.Join() => string { return strings.Join(this.items, "+") }
+func Queue.Join() => string {
+	out := ""
+	for i, s := range this.items {
+		if i > 0 {
+			out += "+"
+		}
+		out += s
+	}
+	return out
+}
 
 func Double(x: int) => int { return inner.Twice(x) }
 
@@ -604,7 +665,7 @@ func main {
 }
 `
 
-const srcTestLibTest = `import "strconv"
+const srcTestLibTest = `import "errors"
 
 func TestQueue {
 	q: Queue
@@ -616,7 +677,7 @@ func TestQueue {
 
 func TestDouble {
 	for i := 0; i < 4; i++ {
-		assert(Double(i) == i*2, strconv.Itoa(i))
+		assert(Double(i) == i*2, errors.New("double").Error())
 	}
 }
 
